@@ -4,6 +4,13 @@
   bounded_extensions(tier)          C09  model extensions implement the documented formula
   bounded_structural_setters(tier)  C08  structural setters: detectable, idempotent, reversible, total
 
+bounded_refactorings also covers (a) code generation + read back of models into which a re-assignment of
+an already assigned symbol was inserted (reassign_variant) and (b) pharmpy's expression extractors and numeric
+evaluators against direct evaluation and central finite differences (run_evaluator_case), on synthetic $PRED
+models with up to 12 (16) covariates and 4 (6) etas.  bounded_extensions also covers error-model setters on
+models with two dependent variables (_run_error_dv) and sequences n -> m of set_transit_compartments
+(_run_transit: number of transit compartments, rate n/MDT i.e. mean transit time MDT, detector).
+
 All three evaluate the REAL pharmpy functions over an exhaustively enumerated finite domain and compare
 with an independent reference that lives in this file: a per-statement numeric interpreter of a model
 (`eval_model`), which walks the statements in order, looks symbols up in an environment of inputs
@@ -231,6 +238,8 @@ def sig_diff(s1, s2):
     if set(nz1) != set(nz2):
         return f"flows {sorted(nz1)} vs {sorted(nz2)}"
     for k in nz1:
+        if _isbad(nz1[k]) and _isbad(nz2[k]):
+            continue    # undefined in both models at this point (e.g. division by a volume that is 0 there)
         if not close(nz1[k], nz2[k]):
             return f"rate {k[0]}->{k[1]}: {nz1[k]!r} vs {nz2[k]!r}"
     return None
@@ -833,7 +842,7 @@ def refactoring_cases(tier):
 
 _REASSIGN_BASES = {'quick': ('pheno', 'moxo'), 'thorough': ('pheno', 'moxo', 'pheno_linear')}
 _REASSIGN_REFACTORINGS = {
-    'quick': ('model_code_reparse', 'convert_model_generic_nonmem_reparse'),
+    'quick': ('model_code_reparse',),
     'thorough': ('model_code_reparse', 'convert_model_generic_nonmem_reparse', 'convert_model_generic',
                  'make_declarative', 'cleanup_model', 'mu_reference_model', 'greekify_model',
                  'simplify_expression'),
@@ -1471,7 +1480,16 @@ def bounded_refactorings(tier):
                  f'18 refactoring kinds (rename_symbols over '
                  f'{"every symbol" if tier == "thorough" else "every symbol of the 3 base models, 7 symbols of each variant"}'
                  f', create_joint_distribution over all pairs of IIV etas, split over every eta) x {K} input points '
-                 f'(parameters within bounds, etas, epsilons, data rows, t, amounts)',
+                 f'(parameters within bounds, etas, epsilons, data rows, t, amounts); code generation and read back '
+                 f'({", ".join(_REASSIGN_REFACTORINGS[tier])}) of {", ".join(_REASSIGN_BASES[tier])} with a re-assignment '
+                 f'inserted after the last assignment of every symbol of the model code x {len(_REASSIGN_FORMS)} forms '
+                 f'(piecewise with literal 0 / 1 / previous value as otherwise branch, three branches, unconditional, new '
+                 f'indicator symbol; thresholds between the grid values of a data column); extractors and numeric '
+                 f'evaluators (evaluate_expression, population / individual prediction, eta and epsilon gradient) against '
+                 f'direct evaluation and central finite differences on $PRED models with {_SYNTH_BOUNDS[tier][0][0]}..'
+                 f'{_SYNTH_BOUNDS[tier][0][-1]} covariates x {_SYNTH_BOUNDS[tier][1][0]}..{_SYNTH_BOUNDS[tier][1][-1]} '
+                 f'etas (up to {_SYNTH_BOUNDS[tier][0][-1] + 1 + _SYNTH_BOUNDS[tier][1][-1]} free symbols) and on '
+                 f'pheno_linear, pheno, moxo, at {K} records x 2 parameter sets',
         'samples': [repr(cases[i]) for i in (0, len(cases) // 2, len(cases) - 1)],
         'fails': fails,
     }
@@ -1625,8 +1643,9 @@ def extension_cases(tier):
                               'steps': [a]})
             for a in singles:
                 for b in singles:
-                    cases.append({'family': 'error_dv', 'model': 'pheno', 'variant': variant, 'start': start,
-                                  'steps': [a, b]})
+                    if a[1] != b[1] or tier == 'thorough':
+                        cases.append({'family': 'error_dv', 'model': 'pheno', 'variant': variant, 'start': start,
+                                      'steps': [a, b]})
             if tier == 'thorough':
                 for a in singles:
                     for b in singles:
@@ -1634,11 +1653,9 @@ def extension_cases(tier):
                             if len({a[1], b[1], c[1]}) == 2:
                                 cases.append({'family': 'error_dv', 'model': 'pheno', 'variant': variant,
                                               'start': start, 'steps': [a, b, c]})
-    # transit compartments: every sequence n -> m (and n alone)
+    # transit compartments: every sequence n -> m (0 -> m is the request m on the model as it is)
     top = 6 if tier == 'thorough' else 4
-    for mname, variant in _TRANSIT_MODELS:
-        for n in range(top + 1):
-            cases.append({'family': 'transit', 'model': mname, 'variant': variant, 'ns': [n]})
+    for mname, variant in (_TRANSIT_MODELS if tier == 'thorough' else _TRANSIT_MODELS[:4]):
         for n in range(top + 1):
             for k in range(top + 1):
                 cases.append({'family': 'transit', 'model': mname, 'variant': variant, 'ns': [n, k]})
@@ -2664,8 +2681,8 @@ def _two_dv_variants():
     }
 
 
-_TWO_DV_QUICK = ('direct_effect_linear', 'effect_compartment_linear', 'metabolite')
-_TWO_DV_THOROUGH = _TWO_DV_QUICK + ('direct_effect_emax', 'indirect_effect_linear')
+_TWO_DV_QUICK = ('direct_effect_linear', 'metabolite')
+_TWO_DV_THOROUGH = _TWO_DV_QUICK + ('effect_compartment_linear', 'direct_effect_emax', 'indirect_effect_linear')
 _DV_SETTERS = ('additive', 'proportional', 'proportional_nozp', 'combined')
 
 
@@ -2968,8 +2985,10 @@ def bounded_extensions(tier):
                  f'{3 if tier == "thorough" else 2} of 12 setters; error models on pheno with a second dependent variable '
                  f'({", ".join(_TWO_DV_THOROUGH if tier == "thorough" else _TWO_DV_QUICK)}; as built and with additive '
                  f'error on both): all sequences of <= {3 if tier == "thorough" else 2} of (additive, proportional with and '
-                 f'without zero protection, combined) x (dv 1, dv 2); set_transit_compartments: 5 models x all '
-                 f'sequences n, n -> m{", n -> m -> k (<= 4)" if tier == "thorough" else ""} with 0 <= n, m <= '
+                 f'without zero protection, combined) x (dv 1, dv 2){"" if tier == "thorough" else " (pairs: one setter per dependent variable, either order)"}; set_transit_compartments: '
+                 f'{5 if tier == "thorough" else 4} models (pheno, moxo, pheno with depot, moxo without lag time'
+                 f'{", pheno with peripheral" if tier == "thorough" else ""}) x all '
+                 f'sequences n -> m{", n -> m -> k (<= 4)" if tier == "thorough" else ""} with 0 <= n, m <= '
                  f'{6 if tier == "thorough" else 4}}} = {fam}; each at {K} grid points plus the reference/category/cutoff points',
         'samples': [repr(cases[i]) for i in (0, len(cases) // 2, len(cases) - 1)],
         'fails': fails,
